@@ -343,6 +343,35 @@ pub struct FaultCase {
     /// status is not
     #[serde(default)]
     pub no_messages: bool,
+    /// `--stats` (search modes only): a trailer on stdout; with `-q` the search no longer stops
+    /// at the first match, the exit status rules stay the same
+    #[serde(default)]
+    pub stats: bool,
+}
+
+/// stdout without the `--stats` trailer (an empty line, `N matches`, ...).
+fn strip_stats(stdout: &[u8]) -> Vec<u8> {
+    let mut pos = 0;
+    let mut cut = None;
+    for line in stdout.split_inclusive(|b| *b == b'\n') {
+        let text = &line[..line.len() - usize::from(line.ends_with(b"\n"))];
+        if let Some(num) = text.strip_suffix(b" matches") {
+            if !num.is_empty() && num.iter().all(|b| b.is_ascii_digit()) {
+                cut = Some(pos);
+            }
+        }
+        pos += line.len();
+    }
+    match cut {
+        Some(c) => {
+            let mut v = stdout[..c].to_vec();
+            if v.ends_with(b"\n\n") || v == b"\n" {
+                v.pop();
+            }
+            v
+        }
+        None => stdout.to_vec(),
+    }
 }
 
 /// What the documentation and the property let us expect from one run.
@@ -601,6 +630,7 @@ pub fn check_faults(c: &FaultCase) -> Verdict {
     let (out, cmd) = run_twice_on_timeout(&|| {
         let rg = base_rg(&full, c.mode, c.threads, c.follow);
         let rg = if c.no_messages { rg.arg("--no-messages") } else { rg };
+        let rg = if c.stats && !c.mode.is_files() { rg.arg("--stats") } else { rg };
         rg.args(ex.roots.iter().cloned())
     });
     if out.timed_out {
@@ -629,7 +659,9 @@ pub fn check_faults(c: &FaultCase) -> Verdict {
             return Verdict::Fail(Fail::new(describe(&format!("stderr line {l:?} names no entry that is expected to fail"), &out, "")));
         }
     }
-    let early_stop = c.mode.is_quiet() && ex.any;
+    let stats = c.stats && !c.mode.is_files();
+    // (with --stats a quiet search does not stop at the first match)
+    let early_stop = c.mode.is_quiet() && ex.any && !stats;
     if c.no_messages {
         // --no-messages: "suppress all error messages related to opening and
         // reading files" — nothing may be printed, the status stays
@@ -645,7 +677,11 @@ pub fn check_faults(c: &FaultCase) -> Verdict {
     }
     // 3. stdout: the results of all other files, as in a fault-free run on
     //    the tree minus the faulty entries
-    let got = match normalise(c.mode, &out.stdout) {
+    let shown = if stats && c.mode != Mode::Json { strip_stats(&out.stdout) } else { out.stdout.clone() };
+    if stats && c.mode != Mode::Json && shown.len() == out.stdout.len() {
+        return Verdict::Fail(Fail::new(describe("--stats was given but stdout carries no statistics trailer", &out, "")));
+    }
+    let got = match normalise(c.mode, &shown) {
         Ok(r) => r,
         Err(e) => return Verdict::Fail(Fail::new(describe(&e, &out, ""))),
     };
@@ -712,6 +748,8 @@ pub fn check_faults(c: &FaultCase) -> Verdict {
     info.class_if(c.mode.is_quiet() && !ex.any && errors, "quiet_without_match_reports_error");
     info.class_if(c.follow, "follow");
     info.class_if(c.no_messages && errors, "no_messages_with_error");
+    info.class_if(stats, "stats");
+    info.class_if(stats && c.mode.is_quiet() && ex.any && errors, "quiet_stats_match_wins_over_error");
     info.class_if(c.roots == Roots::TopLevel, "explicit_roots");
     info.class_if(t.links.iter().any(|l| l.target.is_some()), "valid_symlink");
     Verdict::Pass(info)
@@ -777,7 +815,8 @@ pub fn gen_faults(t: &mut Tape) -> FaultCase {
     let extras_first = t.bool();
     // (drawn last: the rest of the case does not depend on it)
     let no_messages = t.chance(1, 5);
-    FaultCase { tree, roots, extras, extras_first, follow, mode, threads, no_messages }
+    let stats = if mode == Mode::Quiet { t.bool() } else { t.chance(1, 5) };
+    FaultCase { tree, roots, extras, extras_first, follow, mode, threads, no_messages, stats }
 }
 
 // ------------------------------------------------------------------ args ---
